@@ -24,16 +24,17 @@ type G struct {
 // operation, i.e. can only continue when another goroutine acts.
 func (g G) Parked() bool {
 	s := g.State
+	// Only waits that another goroutine has to end count. In particular the
+	// GC-related wait states ("GC assist wait", "GC sweep wait", ...) do NOT:
+	// a goroutine in GC assist resumes by itself, so a snapshot in which the
+	// rest is parked is not a fixpoint (seen under load: a token "missing" at a
+	// step boundary because its flow goroutine was assisting the collector).
 	switch {
 	case strings.HasPrefix(s, "chan receive"),
 		strings.HasPrefix(s, "chan send"),
 		strings.HasPrefix(s, "select"),
 		strings.HasPrefix(s, "semacquire"),
-		strings.HasPrefix(s, "sync."),
-		strings.HasPrefix(s, "finalizer wait"),
-		strings.HasPrefix(s, "GC "),
-		strings.HasPrefix(s, "force gc"),
-		strings.HasPrefix(s, "debug call"):
+		strings.HasPrefix(s, "sync."):
 		return true
 	}
 	return false
